@@ -481,6 +481,11 @@ def per_move(pid, tier, level, cmpkey, fams, rule, extra_need=()):
                                            "mv-pct": 100, "keys": 1 if pid == "C16" else 0, "repr": 1 if pid == "C16" else 0, "san": 1 if pid == "C17" else 0})
     shards += trace(ck, exe, "games", "h", {"roots": roots, "games": 300 if full else 32, "maxply": 60, "shards": 16, "policy": 4,
                                             "mv-pct": 100, "keys": 1 if pid == "C16" else 0, "repr": 0, "san": 1 if pid == "C17" else 0})
+    # positions reached by the moves that change rights without moving a king or a rook: home rooks captured by pawns (promoting), knights,
+    # bishops and queens while the right is held (C16: the reloaded FEN of such a position must carry the same keys as the played position)
+    rk = write_roots_named(ck, ["roots_rookcap.fen"], "rookcap.fen")
+    shards += trace(ck, exe, "games", "k", {"roots": rk, "games": 200 if full else 48, "maxply": 12, "shards": 8, "policy": 4,
+                                            "mv-pct": 100, "keys": 1 if pid == "C16" else 0, "repr": 1 if pid == "C16" else 0, "san": 1 if pid == "C17" else 0})
     viols, cnt = validate(ck, shards)
     need(cnt, [cmpkey, "n_castlemove", "n_promomove", "n_epmove", "n_checkmove"] + list(extra_need), pid + " traces")
     take(ck, pid, viols, others)
